@@ -16,6 +16,7 @@ All arithmetic is over mathematical integers; callers clip to type ranges (wrap-
 
 NEG_INF = None
 TOP = ("top",)
+KILL_LOG = None      # when a set: every place whose contents are forgotten is recorded (used for liftability)
 
 
 def iv_add(a, b):
@@ -74,24 +75,62 @@ def term_place(t):
     return (t[1], t[2])
 
 
-def overlaps(p, q):
-    """places p, q (root, steps): one is a prefix of the other"""
+def _steq(a, b):
+    """step compatibility: index steps may denote the same element whatever their index values"""
+    if a == b:
+        return True
+    return isinstance(a, tuple) and isinstance(b, tuple) and a and b and a[0] == "ix" and b[0] == "ix"
+
+
+def _prefix_eq(a, b, n):
+    for i in range(n):
+        if not _steq(a[i], b[i]):
+            return False
+    return True
+
+
+def ix_places(pl):
+    """places of the terms used as index values inside a place's steps"""
+    for s in pl[1]:
+        if isinstance(s, tuple) and s and s[0] == "ix":
+            v = s[1]
+            if v[0] == "n" and v[1] is not None:
+                yield (v[1][1], v[1][2])
+
+
+def _overlaps_plain(p, q):
     if p[0] != q[0]:
         return False
     a, b = p[1], q[1]
     n = min(len(a), len(b))
-    return a[:n] == b[:n]
+    return _prefix_eq(a, b, n)
+
+
+def overlaps(p, q):
+    """places p, q (root, steps): one is a prefix of the other — or q's identity depends (through an index
+    step) on a value stored at p.  Used as: overlaps(fact place, written place)."""
+    if _overlaps_plain(p, q):
+        return True
+    for ip in ix_places(p):
+        if _overlaps_plain(ip, q):
+            return True
+    return False
 
 
 def under(p, prefix):
     """place p is prefix itself or below it"""
-    return p[0] == prefix[0] and p[1][:len(prefix[1])] == prefix[1]
+    if p[0] != prefix[0]:
+        return False
+    n = len(prefix[1])
+    if len(p[1]) < n:
+        return False
+    return _prefix_eq(p[1], prefix[1], n)
 
 
 def val_places(v):
     """places referenced by a value (for kill)"""
     k = v[0]
-    if k == "n":
+    if k in ("n", "nw"):
         if v[1] is not None:
             yield term_place(v[1])
     elif k == "ref":
@@ -325,6 +364,8 @@ class State:
         """forget facts about the contents of `place` (and everything below / above it).
         whole_local: the root local itself is reassigned -> pointers rooted there die too.
         keep_len: element writes through the place keep its length term."""
+        if KILL_LOG is not None and not keep_len:
+            KILL_LOG.add(place)
         dead_terms = [t for t in self.iv if overlaps(term_place(t), place) and not (keep_len and t[0] == "len" and term_place(t) == place)]
         for t in dead_terms:
             del self.iv[t]
@@ -356,13 +397,23 @@ class State:
     def kill_under(self, prefix, names=None):
         """forget facts about places strictly below/at `prefix`; with `names`, only those whose path below the
         prefix mentions one of the field names (callee mod summary)"""
-        def hit(pl):
+        if KILL_LOG is not None:
+            KILL_LOG.add((prefix[0], prefix[1], tuple(sorted(names))) if names is not None else prefix)
+        def hit1(pl):
             if not under(pl, prefix):
                 return False
             if names is None:
                 return True
             rest = pl[1][len(prefix[1]):]
             return any((s in names) for s in rest if isinstance(s, str))
+
+        def hit(pl):
+            if hit1(pl):
+                return True
+            for ip in ix_places(pl):
+                if hit1(ip):
+                    return True
+            return False
         for t in [t for t in self.iv if hit(term_place(t))]:
             del self.iv[t]
         for k in [k for k in self.rel if any(hit(term_place(t)) for t in k)]:
